@@ -88,8 +88,8 @@ def jobs(tier, gens):
 
 
 def execute_and_validate(tier, js, binary, impl, wave=16):
-    """Run the jobs in waves (driver -> trace -> TLC), deleting clean traces, so that the thorough tier never
-    holds more than one wave of traces on disk."""
+    """Run the jobs in waves (driver -> trace -> TLC) and delete the traces of a wave once TLC has judged them, so
+    that the thorough tier never holds more than one wave of traces on disk."""
     d = vlib.workdir("intconv")
     total = {"events": 0, "deviations": [], "wall": 0.0}
     stderr_lines = []
@@ -105,9 +105,8 @@ def execute_and_validate(tier, js, binary, impl, wave=16):
         total["events"] += tv["events"]
         total["deviations"] += tv["deviations"]
         total["wall"] += tv["wall"]
-        if not tv["deviations"]:
-            for p in paths:
-                os.remove(p)
+        for p in paths:     # every deviation carries its event; the traces themselves are not needed any more
+            os.remove(p)
     return total, sorted(set(stderr_lines))
 
 
